@@ -146,6 +146,80 @@ pub fn run(ctx: &Ctx) -> i32 {
         }
     });
     meta.exhaustive_subspaces.push("all 8 presence combinations of the three categories through generate_report".into());
+    // the same through the binary: trees (with sub-directories) chosen so that some categories have no finding at all
+    {
+        use crate::mon::tree::*;
+        let pool = pool();
+        // programs by the categories in which they have findings
+        let cats: Vec<(usize, u8)> = pool
+            .progs
+            .iter()
+            .enumerate()
+            .map(|(i, (_, t))| {
+                let mut m = 0u8;
+                for (_, d) in crate::dets::ALL.iter() {
+                    if !d.lines(t, 0).is_empty() {
+                        m |= match d.category() {
+                            "vulnerabilities" => 1,
+                            "optimizations" => 2,
+                            _ => 4,
+                        };
+                    }
+                }
+                (i, m)
+            })
+            .collect();
+        let nbin = ctx.tier.pick(60u64, 1500u64);
+        run_workload(ctx, &mut acc, "binary-presence", nbin, |k, rng, acc| {
+            // allowed categories for this tree
+            let allow = (k % 8) as u8;
+            let cands: Vec<usize> = cats.iter().filter(|(_, m)| m & !allow == 0).map(|(i, _)| *i).collect();
+            let base = crate::mon::c11::scratch_dir("c12b");
+            let root = format!("{}/contracts", base);
+            std::fs::create_dir_all(format!("{}/inner/deeper", root)).unwrap();
+            std::fs::create_dir_all(format!("{}/empty", root)).unwrap();
+            let mut want = 0u8;
+            for j in 0..rng.range(0, 4) {
+                if cands.is_empty() {
+                    break;
+                }
+                let i = *rng.pick(&cands);
+                want |= cats[i].1;
+                let dir = match rng.below(3) {
+                    0 => root.clone(),
+                    1 => format!("{}/inner", root),
+                    _ => format!("{}/inner/deeper", root),
+                };
+                std::fs::write(format!("{}/F{}.sol", dir, j), pool.progs[i].1.as_bytes()).unwrap();
+            }
+            match run_solstat(&base, &[]) {
+                Ok(out) if out.code == Some(0) => {
+                    acc.eval();
+                    acc.cov(&format!("binary-presence:expected-{:03b}", want));
+                    let text = String::from_utf8_lossy(&out.report.unwrap_or_default()).to_string();
+                    match report::parse_report(&text, &table) {
+                        Ok(p) => {
+                            let got = (p.vuln.is_some() as u8) | ((p.opt.is_some() as u8) << 1) | ((p.qa.is_some() as u8) << 2);
+                            if got != want {
+                                let which = if (got ^ want) & 1 != 0 { "vulnerabilities" } else if (got ^ want) & 2 != 0 { "optimizations" } else { "qa" };
+                                acc.violation(format!("part:{}:binary", which), json!({"expected_parts_mask": want, "found_parts_mask": got, "report": trunc(&text, 1500)}));
+                            }
+                            if let Some(part) = &p.vuln {
+                                let shown: u64 = part.sections.iter().map(|s| s.entries.len() as u64).sum();
+                                if part.total != Some(shown) {
+                                    acc.violation("total:vulnerabilities:binary", json!({"printed_total": part.total, "entries_listed": shown}));
+                                }
+                            }
+                        }
+                        Err(e) => acc.violation("report-grammar:binary", json!({"parse_error": e, "report": trunc(&text, 1500)})),
+                    }
+                }
+                Ok(out) => acc.inconclusive(format!("solstat failed on a pool tree: {:?} {}", out.code, trunc(&out.stderr, 200))),
+                Err(e) => acc.inconclusive(e),
+            }
+            let _ = std::fs::remove_dir_all(&base);
+        });
+    }
     if ctx.replay.is_none() {
         for mask in 0..16 {
             if acc.cov_get(&format!("vuln-subset:{:04b}", mask)) == 0 {
